@@ -38,9 +38,10 @@ VARIABLES segs,     \* set of [s, e]: start inclusive, end exclusive, absolute h
           now,      \* clock
           filed,    \* set of [ts, s]: point ts was filed under the segment starting at s
           last,     \* the operation that produced this state, with what it returned
+          lastTick, \* time of the last Tick event (ticks closer than 10 minutes are ignored by the code)
           ops
 
-vars == <<segs, num, now, filed, last, ops>>
+vars == <<segs, num, now, filed, last, lastTick, ops>>
 
 Offset(h) == IF h >= DstStart /\ h < DstEnd THEN 1 ELSE 0
 Wall(h) == h + Offset(h)                  \* wall-clock hours since O
@@ -80,12 +81,13 @@ Overlap(g, lo, hi) == IF g.s = hi THEN TRUE ELSE IF lo = g.e THEN FALSE ELSE g.s
 Selected(lo, hi) == { g \in segs : Overlap(g, lo, hi) /\ ~Expired(g) }
 
 Init == /\ segs \in Legacy /\ num = InitNum /\ now = Min(Clocks) /\ filed = {}
-        /\ last = [op |-> "open"] /\ ops = 0
+        /\ last = [op |-> "open"] /\ lastTick = -1 /\ ops = 0
 
 Step == ops < MaxOps /\ ops' = ops + 1
+NoTick == UNCHANGED lastTick
 
 Create(t) ==                         \* CreateSegmentIfNotExist(t): the write path
-  /\ Step
+  /\ Step /\ NoTick
   /\ LET g == IF Holder(t) # {} THEN CHOOSE x \in Holder(t) : TRUE ELSE NewSeg(t)
      IN /\ segs' = segs \cup {g}
         /\ filed' = filed \cup {[ts |-> t, s |-> g.s]}
@@ -93,34 +95,53 @@ Create(t) ==                         \* CreateSegmentIfNotExist(t): the write pa
   /\ UNCHANGED <<num, now>>
 
 Reopen ==                            \* Close + OpenTSDB on the same directory
-  /\ Step /\ last' = [op |-> "reopen"] /\ UNCHANGED <<segs, num, now, filed>>
+  /\ Step /\ lastTick' = -1 /\ last' = [op |-> "reopen"] /\ UNCHANGED <<segs, num, now, filed>>
 
 UpdateInterval(n) ==                 \* UpdateOptions with another multiple (the unit cannot change)
-  /\ Step /\ n # num /\ num' = n /\ last' = [op |-> "interval", num |-> n]
+  /\ Step /\ NoTick /\ n # num /\ num' = n /\ last' = [op |-> "interval", num |-> n]
   /\ UNCHANGED <<segs, now, filed>>
 
 Advance(t) ==
-  /\ Step /\ t > now /\ now' = t /\ last' = [op |-> "clock", now |-> t]
+  /\ Step /\ NoTick /\ t > now /\ now' = t /\ last' = [op |-> "clock", now |-> t]
   /\ UNCHANGED <<segs, num, filed>>
 
 Select(lo, hi) ==                    \* a query: observation only
-  /\ Step /\ lo <= hi
+  /\ Step /\ NoTick /\ lo <= hi
   /\ last' = [op |-> "select", lo |-> lo, hi |-> hi, res |-> Selected(lo, hi)]
   /\ UNCHANGED <<segs, num, now, filed>>
 
 Retention ==                         \* retentionTask.run at the current clock
-  /\ Step
+  /\ Step /\ NoTick
   /\ segs' = { g \in segs : ~Expired(g) }
   /\ filed' = { f \in filed : \E g \in segs' : g.s = f.s }
   /\ last' = [op |-> "retention", removed |-> { g \in segs : Expired(g) }]
   /\ UNCHANGED <<num, now>>
 
 Forced ==                            \* DeleteOldestSegment (disk pressure)
-  /\ Step
+  /\ Step /\ NoTick
   /\ LET victim == IF Cardinality(segs) > 1 THEN { g \in segs : \A x \in segs : g.s <= x.s } ELSE {}
      IN /\ segs' = segs \ victim
         /\ filed' = { f \in filed : \E g \in segs' : g.s = f.s }
         /\ last' = [op |-> "forced", removed |-> victim]
+  /\ UNCHANGED <<num, now>>
+
+\* Tick(t): the write path reports the time of an incoming event (database.Tick).  The rotation goroutine runs the
+\* retention pass with "now" = t and, when t lies within one hour before the end of the newest segment, creates the
+\* segment of the next interval ahead of time.
+NextOf(t) == IF Unit = "HOUR" THEN t + num ELSE MidnightAbs(DayOf(t) + num) + 1
+Tick(t) ==
+  /\ Step /\ t > lastTick /\ lastTick' = t
+  /\ LET kept == { g \in segs : g.e > t - TTL }
+         latestE == IF kept = {} THEN 0 ELSE Max({ g.e : g \in kept })
+         x == NextOf(t)
+         ahead == kept # {} /\ latestE - t = 1 /\ { g \in kept : Contains(g, x) } = {}
+         a == GridStart(x, num)
+         z == GridNext(a, num)
+         before == { g.e : g \in { y \in kept : y.e <= x } }
+         s0 == IF before = {} THEN a ELSE IF Max(before) > a THEN Max(before) ELSE a
+     IN /\ segs' = IF ahead THEN kept \cup {[s |-> s0, e |-> z]} ELSE kept
+        /\ filed' = { f \in filed : \E g \in kept : g.s = f.s }
+        /\ last' = [op |-> "tick", t |-> t, removed |-> segs \ kept, ahead |-> ahead]
   /\ UNCHANGED <<num, now>>
 
 Next == \/ "create" \in Ops /\ \E t \in Times : Create(t)
@@ -130,10 +151,11 @@ Next == \/ "create" \in Ops /\ \E t \in Times : Create(t)
         \/ "select" \in Ops /\ \E r \in Ranges : Select(r[1], r[2])
         \/ "retention" \in Ops /\ Retention
         \/ "forced" \in Ops /\ Forced
+        \/ "tick" \in Ops /\ \E t \in Clocks : Tick(t)
 
 Spec == Init /\ [][Next]_vars
 
-View == <<segs, num, now, filed, ops>>
+View == <<segs, num, now, filed, lastTick, ops>>
 
 ---------------------------------------------------------------------------
 \* C06
@@ -161,6 +183,7 @@ ForcedAtMostOldestNotLast ==
 ExpiredInvisible == last.op = "select" => \A g \in last.res : g.e > Deadline
 PartiallyExpiredVisible ==
   last.op = "select" => \A g \in segs : (Overlap(g, last.lo, last.hi) /\ g.e > Deadline) => g \in last.res
+TickNeverDeletesYoung == last.op = "tick" => \A g \in last.removed : g.e <= last.t - TTL
 RetentionOnlyRemovesExpired ==
   [][(last'.op = "retention") => (segs' \subseteq segs /\ \A g \in segs \ segs' : g.e <= now - TTL)]_vars
 =============================================================================
